@@ -10,7 +10,7 @@
 EXTENDS Integers, Sequences
 
 FnArity == [one |-> 0, two |-> 0,
-            id |-> 1, neg |-> 1, dbl |-> 1, inc |-> 1, step |-> 1, dsum |-> 1, loopinc |-> 1, dflt |-> 1,
+            id |-> 1, neg |-> 1, dbl |-> 1, inc |-> 1, step |-> 1, pos |-> 1, dsum |-> 1, loopinc |-> 1, dflt |-> 1,
             add |-> 2, sub |-> 2, mul |-> 2, sel |-> 2, cut |-> 2, cap |-> 2, swp |-> 2,
             mad |-> 3]
 
@@ -22,6 +22,7 @@ FApply(fn, a) ==
       [] fn = "dbl"  -> 2 * a[1]
       [] fn = "inc"  -> a[1] + 1
       [] fn = "step" -> IF a[1] > 2 THEN 1 ELSE 0
+      [] fn = "pos"  -> IF a[1] >= 0 THEN a[1] ELSE 0          \* Python twin: sign test against the literal 0 (positive part)
       [] fn = "dsum" -> a[1]                  \* a data set is represented by the sum of its entries
       [] fn = "loopinc" -> a[1] + 1           \* Python twin uses a while loop: outside every translator's subset
       [] fn = "dflt" -> 3 * a[1]              \* Python twin calls a helper leaving its defaulted parameter (3) unset
